@@ -207,10 +207,8 @@ def setStuck : PM Unit := modify fun p => { p with stuck := true }
 
 /-! ## bind statement (no recursion) -/
 
-def bindStmt : PM Stmt := do
-  consume .IDENT (str "expected block type")
-  if (← get).panicMode then return .bad
-  let blockType := (← get).prev.val
+/-- The optional `:selector` of a bind statement (1 = one, 2 = first, 3 = last, 15 = all). -/
+def bindSel : PM Nat := do
   let mut sel : Nat := 1
   let errmsg := str "expected 1,first,last,all as a block selector"
   if ← «match» .COLON then
@@ -224,16 +222,28 @@ def bindStmt : PM Stmt := do
       else if v == str "all" then sel := 15
       else error errmsg
     else errorAtCurrent errmsg
-  consume .ARROW (str "expected '->'")
-  if (← get).panicMode then return .bad
-  let errmsg := str "expected bind target ('struct' or 'slice')"
-  consume .IDENT errmsg
-  if (← get).panicMode then return .bad
+  return sel
+
+/-- The target word of a bind statement, just consumed (16 = struct, 32 = slice). -/
+def bindTarget (errmsg : Bytes) : PM Nat := do
   let v := (← get).prev.val
   let mut target : Nat := 0
   if v == str "struct" then target := 16
   else if v == str "slice" then target := 32
   else error errmsg
+  return target
+
+def bindStmt : PM Stmt := do
+  consume .IDENT (str "expected block type")
+  if (← get).panicMode then return .bad
+  let blockType := (← get).prev.val
+  let sel ← bindSel
+  consume .ARROW (str "expected '->'")
+  if (← get).panicMode then return .bad
+  let errmsg := str "expected bind target ('struct' or 'slice')"
+  consume .IDENT errmsg
+  if (← get).panicMode then return .bad
+  let target ← bindTarget errmsg
   if sel == 15 && target != 32 then error (str "bind of multiple blocks requires slice target")
   if (← get).panicMode then return .bad
   let idx ← identConst blockType
